@@ -366,6 +366,8 @@ func c03Gen(r *RNG, tier string) []json.RawMessage {
 		h := []ItemSpec{textItem(r), textItem(r), textItem(r), textItem(r)}
 		add(TableSpec{Header: &h, Rows: []RowSpec{{Sep: true}, {Sep: true}, {Cells: []ItemSpec{textItem(r)}}, {Cells: []ItemSpec{}}, {Sep: true}}}, withCustom(1))
 	}
+	// histories of renders whose render-time callbacks change cells (c03_live.go)
+	out = append(out, liveGen(r, tier, reg)...)
 	return out
 }
 
@@ -373,9 +375,9 @@ func init() {
 	register(&Prop{
 		ID:       "C03",
 		Imports:  "From Tab Require Import Run.Glue Run.C03Run.",
-		CaseType: "text_case",
-		CaseFn:   "C03_case",
-		ModelFn:  "C03_model",
+		CaseType: "c03_case",
+		CaseFn:   "C03_case_all",
+		ModelFn:  "C03_model_all",
 		Rule: "tables built through the public API (AddHeaders / AddRowItems / NewRow+Add+AddRow / NewRowSizedFor / AddSeparator), each rendered under every registered decoration " +
 			"(decoration.RegisteredDecorationNames, fields dumped by reflection at run time) and under random custom decorations (random subset of the 22 fields, then Populate; some from NoBox(), some left incomplete); " +
 			"every shape with header in {none,0,1,2 cells} and up to 2 rows over {separator,0,1,2 cells}; every atom of a hostile alphabet (ASCII, CJK, full-width, combining incl. leading, ZWSP, ZWJ, VS16, ZWJ emoji, flags, tab, CR, escapes, multi-line, trailing newlines, invalid UTF-8) in first/middle/last column of a fixed grid; random grids to 4x5; " +
@@ -383,12 +385,13 @@ func init() {
 			"custom decorations DERIVED from every registered one (fields cleared, a key glyph changed, Populate again) and what Populate promises judged on the decoration handed back (complete, nothing set was changed); cluster-dense cells (long ZWJ / tag / keycap sequences, 8..40 stacked marks or zero-width characters: far more than 4 bytes per display cell) in one- and two-column tables; other wrappers (markdown, csv, html, json, a second text wrapper) made on the same table after the text wrapper, rendered or not before it; " +
 			"rows holding more cells than the table has columns (t.AppendNewRow, Add, other.AddRow(row), Add one or two extra cells - narrow, wide, multi-line, empty - with and without headers and other rows): the extra cells are not shown and widen nothing; " +
 			"the application's own property callbacks (every time x target on the table, failing on every / every other / no call, some setting a property of their own) registered before the build and before texttable.Wrap - the output must not depend on them; another independent table rendered from inside the writer's Write while the judged render is writing (overlapping renders, sequentially); render, same-size mutations (same width on every line, same line count, different bytes) of mutable items + Update through CellAt, render again through the same wrapper; TableSpec.BuildRenderW with StageFaults / FinalVia / FaultAt / Scribble / PropOps via enrichSpec; " +
+			"histories of renders whose render-time callbacks CHANGE cells (c03_live.go): mutable items with two to four successive contents (narrower, wider, more / fewer lines, to / from nothing, hostile alphabet), an application callback that gives the item of the cell it is handed its next content and calls Cell.Update, registered on the table / a column / the defaults column / a row / the cell itself (body and header cells) for pre-cell, render or post-cell time, BEFORE or AFTER texttable.Wrap (also wrappers made before the build, and a second text wrapper made later), one to three renders through the one wrapper, EVERY render observed; what each render must show - every cell, width, height and lines alike, as the last measuring callback of that render found it - is computed in Coq from the registrations (Model/TextLive.v, Spec/TextPassSpec.v); systematically on a fixed grid (3 places x 8 kinds of change x 13 registration patterns) and on random tables; " +
 			"the expected view is computed from the SPEC alone (TableSpec.SpecView: texts, per-line measured sizes, shape, properties), not read back from the table under test; " +
 			"a case (one table x its decorations) is non-trivial when the table has at least one column; distinct = distinct (oracle table, view, decorations, outcomes); " +
 			"the width oracle is length.StringCells of each text line and glyph; incomplete custom decorations and zero-column tables are outside the statement and only checked for model = implementation",
 		Exhaustive: "shapes (header x row-sequence up to length 2) x all registered decorations; every alphabet atom in 3 column positions",
 		Gen:        c03Gen,
-		Run:        runTextSpec,
-		Shrink:     shrinkTextJSON,
+		Run:        runC03Spec,
+		Shrink:     shrinkC03JSON,
 	})
 }
